@@ -474,6 +474,22 @@ impl Prop for C18 {
             } else {
                 Endpoint::v4(*r.pick(&[10u8, 203, 198]), r.u8(), r.u8(), 1 + r.below(250) as u8, *r.pick(&[80u16, 443, 8080]))
             };
+            // one scenario in twelve is a connection whose dispatch hash takes a sentinel-looking value (low 32 bits all
+            // zero or all one): found once by `vsim sentinels` against the repository's own hash functions and kept in
+            // data/sentinel_flows.json. A random sample meets such a connection once in 2^32.
+            let (c, s) = if !v6 && r.chance(1, 12) {
+                let list: Vec<serde_json::Value> = serde_json::from_str(include_str!("../../data/sentinel_flows.json")).unwrap_or_default();
+                let parse = |t: &str| -> Option<Endpoint> {
+                    let (ip, port) = t.rsplit_once(':')?;
+                    Some(Endpoint { ip: ip.parse().ok()?, port: port.parse().ok()? })
+                };
+                match list.get(r.usize_below(list.len().max(1))).and_then(|e| Some((parse(e.get("client")?.as_str()?)?, parse(e.get("server")?.as_str()?)?))) {
+                    Some(cs) => cs,
+                    None => (c, s),
+                }
+            } else {
+                (c, s)
+            };
             // one connection in five has both ends on the same address (loopback capture, hairpin NAT)
             let s = if r.chance(1, 5) { Endpoint { ip: c.ip, port: s.port } } else { s };
             let h = tcp::Host::random(r);
